@@ -37,6 +37,9 @@ func sectionHullRace() {
 	for _, nb := range []int{1, 10} {
 		runDropRace(sec, nb)
 	}
+	for _, nb := range []int{1, 10} {
+		runForgetRace(sec, nb)
+	}
 	res.Done(sec)
 }
 
@@ -277,6 +280,109 @@ func runHullRace(sec *vh.Section, nb int, held bool) {
 	ans, err := vh.Batch(args.Driver, r.lines)
 	if err != nil {
 		res.Note("hullrace: driver: %v", err)
+	}
+	for i := range ans {
+		r.checks[i](ans[i])
+	}
+}
+
+// runForgetRace is the deterministic replay of finding F48: a reader's syncChunks works on the chunk list it was given; when a
+// new chunk is created and notified while the reader is between syncChunks' two critical sections, the second one treats the
+// new chunk's entry as removed and forgets it (with its tree). The writer's next notification for that chunk finds no entry,
+// creates one from its own batch only (firstRec > 0 → corrupted → background rebuild): until the rebuild has merged the
+// scanned hull, the chunk's hull is the last batch's and RANGE queries over the chunk's earlier events return nothing.
+func runForgetRace(sec *vh.Section, nb int) {
+	dir := lrsrv.NewDir()
+	defer os.RemoveAll(dir)
+	srv, err := lrsrv.Start(dir, lrsrv.Opts{MaxChunkSize: 5020, NoRPC: true}) // 251 records of 20 bytes per chunk
+	if err != nil {
+		res.Note("hullrace/forget: %v", err)
+		return
+	}
+	defer srv.Stop()
+	defer verifhook.Reset()
+	r := &sysRun{h: history{ChunkSize: 5020, Regime: "strict"}, srv: srv, ctx: context.Background(), sec: sec, section: "hullrace"}
+	rng := vh.NewRng(int64(nb))
+	r.ask("rw.reset 5020", func(string) {})
+	if !r.doWrite(op{Kind: "write", Segs: []seg{{T: 100, N: 251, D: 1}}}, rng) { // fills chunk 1 exactly
+		return
+	}
+	if len(r.chunks()) != 1 {
+		res.Note("hullrace/forget: unexpected chunk layout (%d chunks)", len(r.chunks()))
+		return
+	}
+	// the reader: a new query, parked between the two critical sections of its syncChunks (chunk list = [chunk 1])
+	arrivedR, gateR := make(chan struct{}, 1), make(chan struct{})
+	var once bool
+	verifhook.Set("tmindex.syncChunks.betweenLocks", func() {
+		if !once {
+			once = true
+			arrivedR <- struct{}{}
+			<-gateR
+		}
+	})
+	doneR := make(chan struct{})
+	go func() {
+		defer close(doneR)
+		// one page of 3 events: the query ends inside chunk 1 (a reader that walks on to the end of the journal would
+		// re-derive the forgotten entry itself by its next syncChunks)
+		srv.Querier.Query(r.ctx, &api.QueryRequest{Query: rangeQuery(i64p(100), i64p(105)), Limit: 3})
+	}()
+	select {
+	case <-arrivedR:
+	case <-time.After(5 * time.Second):
+		res.Note("hullrace/forget: the reader did not reach the hook between syncChunks' critical sections")
+		close(gateR)
+		<-doneR
+		return
+	}
+	// batch B opens chunk 2 and is notified (the index now knows chunk 2)
+	bSegs := []seg{{T: 1000, N: nb, D: 1}}
+	if !r.doWrite(op{Kind: "write", Segs: bSegs}, rng) {
+		close(gateR)
+		<-doneR
+		return
+	}
+	close(gateR) // the reader's second critical section: chunk 2 is not in its list → forgotten
+	<-doneR
+	verifhook.Set("tmindex.syncChunks.betweenLocks", nil)
+	r.ask("rw.forgetchunk 2", func(string) {})
+	// batch C: the writer's notification finds no entry for chunk 2; the rebuild it asks for is parked
+	gateReb := make(chan struct{})
+	verifhook.Set("partition.tmirebuilder.beforeServe", func() { <-gateReb })
+	cts := expand([]seg{{T: 2000, N: 5, D: 1}})
+	evs := make([]model.LogEvent, len(cts))
+	for i, t := range cts {
+		evs[i] = model.LogEvent{Timestamp: t, Msg: []byte(fmt.Sprintf("%06d", len(r.allTs)+i))}
+	}
+	if err := srv.Parts.Write(r.ctx, tags, &wit{evs: evs}, true); err != nil {
+		res.Note("hullrace/forget: %v", err)
+		close(gateReb)
+		return
+	}
+	r.allTs = append(r.allTs, cts...)
+	r.batches = append(r.batches, cts)
+	r.full = nil
+	if !r.waitFlushed() {
+		close(gateReb)
+		return
+	}
+	r.ask("rw.write "+modelSpec(cts), func(string) {})
+	r.schedFinding = "F48"
+	r.doQuery(op{Kind: "query", Lo: i64p(1000), Hi: i64p(1000 + int64(nb))}, false) // B's events: hidden behind C's hull
+	r.doQuery(op{Kind: "query", Lo: i64p(900), Hi: i64p(1999)}, false)
+	r.doQuery(op{Kind: "query", Lo: i64p(2000)}, false) // C's own events are delivered
+	close(gateReb)
+	verifhook.Set("partition.tmirebuilder.beforeServe", nil)
+	time.Sleep(5 * time.Millisecond)
+	r.waitIdle()
+	r.ask("rw.autorebuild", func(string) {})
+	r.schedFinding = ""
+	r.doQuery(op{Kind: "query", Lo: i64p(1000), Hi: i64p(1000 + int64(nb))}, false) // after the background rebuild: back
+	r.doQuery(op{Kind: "query", Lo: i64p(900), Hi: i64p(1999)}, false)
+	ans, err := vh.Batch(args.Driver, r.lines)
+	if err != nil {
+		res.Note("hullrace/forget: driver: %v", err)
 	}
 	for i := range ans {
 		r.checks[i](ans[i])
